@@ -1,4 +1,4 @@
-(* Mixture.__init__ (mixture.py:25-52) and Molecule.__init__ / generable (molecule.py:22-152), statement by statement, over the parsers
+(* Mixture.__init__ (mixture.py:25-52; the number is what stands after the leading point, bars (and percent sign) stripped: fix of 2026-10-02) and Molecule.__init__ / generable (molecule.py:22-152), statement by statement, over the parsers
    of Bond.v, Token.v and Stoch.v.  The while loop over '{' runs on fuel; OutOfFuel is a distinct result (EFuel).  Executable, no proofs. *)
 From Coq Require Import List ZArith QArith Ascii String Bool.
 From GBS Require Import Model.PyStr Model.Num Model.Bond Model.Token Model.DistFam Src.SrcDist Model.Stoch.
@@ -16,12 +16,12 @@ Definition parse_mixture (raw : str) : result pmix :=
   | Some c =>
       if negb (Ascii.eqb c (ch ".")) then Err ERuntime "mixture descriptions start with '.'" else
       if contains (lit "%") raw then
-        match py_float (strip_chars (lit ".|%") raw) with
+        match py_float (strip_chars (lit "|%") (slice raw (Some 1) None)) with
         | None => Err EValue "could not convert string to float"
         | Some r => if num_lt0 r || num_gt r 100 then Err ERuntime "invalid percent" else OK {| mx_abs := None; mx_rel := Some r |}
         end
       else
-        match py_float (strip_chars (lit ".|") raw) with
+        match py_float (strip_chars (lit "|") (slice raw (Some 1) None)) with
         | None => OK {| mx_abs := None; mx_rel := None |}          (* warning only: the system will not be generable *)
         | Some a => if num_lt0 a then Err ERuntime "invalid absolute mass" else OK {| mx_abs := Some a; mx_rel := None |}
         end
